@@ -124,8 +124,7 @@ def r024(model, rep, rule='R02.4'):
     gl = tv.toplevel_names(pm.tree)
     for name in ('IKinBody', 'IKinSpace'):
         fi = model.func(PORT, name)
-        nz = Normalizer(fi.node, SHAPES, port_funcs.keys(), None, True, gl)
-        nz.prune_loops = False
+        nz = tv._normalizer(model, pm, fi.node, name, prune=False)
         try:
             term = nz.run()
         except Unsupported as e:
